@@ -4,3 +4,10 @@ chk("C19", "exploration", "property-based testing (Hypothesis): round-trip oracl
     "for whole, generated-split and single-byte delivery and equal the per-message decoding. Search, not proof.",
     "Identifier-alphabet names; no lone surrogates; pickle client not covered. Trusted: CPython asyncio.StreamReader.",
     "DESIGN.md §4 C19")
+chk("C01", "exploration", "property-based testing (Hypothesis): generated handler programs vs. a log oracle that replays the registry (reference model)",
+    "Generated handler programs (handlers that post, add, remove and replace handlers, with priorities, conditions, "
+    "registered kwargs, relay/boolean results) are executed on the real EventManager from five posting contexts; the "
+    "recorded log is checked for exactly-once delivery to required handlers, priority order, kwargs precedence, no "
+    "nesting/interleaving, depth-first order and exactly-once, subtree-complete callbacks. Search, not proof.",
+    "Handlers never raise; <= 40 posts and <= 30 live registrations per case; queue events are C02's.",
+    "DESIGN.md §4 C01, appendix A.1")
